@@ -178,3 +178,4 @@ def shard(ctx):
     from ..engines import realpar
     if hasattr(realpar, "c16_strategy"):
         ctx.hyp_run(realpar.c16_strategy(ctx), max_examples=ctx.pick(10, 200), label="real", shrink=False)
+        ctx.hyp_run(realpar.c16_stress_strategy(ctx), max_examples=ctx.pick(4, 40), label="stress", shrink=False)
